@@ -44,6 +44,7 @@ func c21bBody(t *testing.T, sc c21bScenario) (func(), *c21bObs) {
 			vkit.Fatalf(t, "dc: %v", err)
 		}
 		d.OnMessage(func(DataChannelMessage) {
+			vsched.Yield("user-handler")
 			o.inHandler = true
 			o.handled++
 			if sc.Busy {
